@@ -1,4 +1,4 @@
-import TrionModel.Lemmas.TridasFuel
+import TrionModel.Lemmas.TridasAsm
 /-!
 # C20 — the tridas listing re-assembles to the code it was produced from
 
@@ -102,6 +102,66 @@ theorem listing_roundtrip_partial {decode : Decoder} {b : List UInt8} {es : List
   rw [h1, chain_flatten b es BASE (BASE + b.length) hc (Nat.le_refl _)]
   simp
 
+/-- C20.roundtrip at the level of the assembler's layout core (C05).  Read the listing as a program of
+`Trion.Layout` (`lineStmts`: header = `.addr 0x20000000`, a label line defines the symbol numbered by its address,
+an instruction line is a value-dependent statement with bytes `enc i` that needs the symbols `deps a i`). Under
+the hypotheses of `listing_roundtrip_partial`:
+
+1. pass 1 of the two-pass reference is defined, and its symbol table binds every in-file branch target to the
+   address its label names — and binds no symbol to anything but its own address (so the operand values the
+   instruction lines are assembled with are the ones they were printed from);
+2. the reference layout of the program is exactly the input file at 0x20000000 — every byte, nothing else;
+3. whenever the layout core (`Layout.run`: statement loop, placeholders for forward references, end-of-file
+   task queue, `close_segment`) assembles the program, its image is exactly the input file at 0x20000000.
+
+Still missing for `listing_roundtrip : Asm.run (text (listing b)) = success {0x20000000 ↦ b}`:
+(a) that `Layout.run` does succeed on this program (no overflow: the file fits; no duplicate: `labels_unique`;
+    no undefined symbol when `deps` only names in-file branch targets — needs a success theorem for `Layout.run`,
+    C05 has only the conditional `layout_refines`);
+(b) the refinement `Asm.run` (text → `Lex`/`Parse` → `Front.build` + `Codec` per statement, C06) ⊑ `Layout.run`,
+    with `enc i` = `Codec` bytes of `Front.build a (Show.parts i a)` (C19 `show_assembles` for `EvalOK` given by item 1,
+    C03 `dec_canon` for `enc (decode bytes) = bytes`) and `text_eq_render` + the parser round trip (C10/C11) for the
+    concrete syntax. -/
+theorem listing_roundtrip_layout {decode : Decoder} {b : List UInt8} {es : List Entry}
+    (wf : WellFormed decode b es) (hc : Chain es BASE (BASE + b.length))
+    (enc : Instr → List UInt8) (deps : Nat → Instr → List Nat) (henc : ∀ e ∈ es, enc e.instr = slice b e) :
+    ∃ ls, listing decode b = .ok ls ∧
+      (∃ env, Layout.Ref.pass1 none [] (lineStmts enc deps ls) = some env ∧
+        (∀ e ∈ es, ∀ d, getBranch e.instr e.addr = some d → inFile b.length d → env.get d = some (d : Int)) ∧
+        (∀ n v, env.get n = some v → v = (n : Int))) ∧
+      (∃ img', Layout.Ref.layout (lineStmts enc deps ls) = some img' ∧
+        ∀ k, img'.get k = if BASE ≤ k ∧ k < BASE + b.length then b[k - BASE]? else none) ∧
+      (∀ img, Layout.run (lineStmts enc deps ls) = .ok img →
+        ∀ k, img.get k = if BASE ≤ k ∧ k < BASE + b.length then b[k - BASE]? else none) := by
+  obtain ⟨st, hst, hes⟩ := traverse_covers_ok wf
+  have hl : listing decode b = .ok (Line.header :: render st.branches st.instrs false BASE) := by
+    unfold listing; rw [hst]
+  rw [hes] at hl
+  obtain ⟨env, p1, p1e⟩ := pass1_render enc deps b st.branches es BASE (BASE + b.length) false BASE [] hc
+    (Nat.le_refl _) (Nat.le_refl _) wf.small henc (fun n hn => by simp [Layout.Env.get] at hn)
+  obtain ⟨img', p2, p2e⟩ := pass2_render enc deps b st.branches es BASE (BASE + b.length) false BASE [] hc
+    (Nat.le_refl _) (Nat.le_refl _) henc
+  have h1 : Layout.Ref.pass1 none [] (lineStmts enc deps (Line.header :: render st.branches es false BASE)) = some env := p1
+  have h2 : Layout.Ref.pass2 none [] (lineStmts enc deps (Line.header :: render st.branches es false BASE)) = some img' := p2
+  have himg : ∀ k, img'.get k = if BASE ≤ k ∧ k < BASE + b.length then b[k - BASE]? else none := by
+    intro k; rw [p2e k]; rfl
+  refine ⟨_, hl, ⟨env, h1, ?_, ?_⟩, ⟨img', ?_, himg⟩, ?_⟩
+  · intro e he d hb hin
+    have hbr := traverse_brInv hst e (by rw [hes]; exact he) d hb
+    rw [p1e d, if_pos ⟨by simpa using hbr, wf.targets e he d hb hin⟩]
+  · intro n v hv
+    rw [p1e n] at hv
+    split at hv
+    · cases hv; rfl
+    · simp [Layout.Env.get] at hv
+  · unfold Layout.Ref.layout
+    rw [h1]; exact h2
+  · intro img hrun k
+    obtain ⟨im, e1, hg⟩ := Layout.run_pass2 _ img hrun (lineStmts_wf enc deps _)
+    rw [h2] at e1
+    cases e1
+    rw [hg k, himg k]
+
 /-- a hand-made decoder for a two-instruction file `BEQ l_20000002; BX LR` -/
 private def exDecode : Decoder := fun bs =>
   if bs.length = 4 then some (2, .b 0 (-2)) else if bs.length = 2 then some (2, .bx 14) else none
@@ -138,5 +198,12 @@ example : (∀ e ∈ [(⟨0x20000000, .b 0 (-2), 0x20000002⟩ : Entry), ⟨0x20
     getBranch (.b 0 (-2)) 0x20000000 = some 0x20000002 ∧ inFile 4 0x20000002 := by
   refine ⟨?_, rfl, by simp [inFile, BASE]⟩
   intro e he; simp at he; rcases he with rfl | rfl <;> rfl
+
+/-- non-vacuity of `listing_roundtrip_layout`, clause 3: on the two-instruction file the layout core does assemble the
+listing (the first instruction refers forward to the label, so it is placed as a placeholder and rewritten by the
+end-of-file task) and yields the four input bytes at 0x20000000 -/
+example : Layout.run (lineStmts (fun _ => [0, 0]) (fun a i => (getBranch i a).toList)
+      [.header, .instr 0x20000000 (.b 0 (-2)), .label 0x20000002, .instr 0x20000002 (.bx 14)]) =
+    .ok [(0x20000000, 0), (0x20000001, 0), (0x20000002, 0), (0x20000003, 0)] := by rfl
 
 end Trion.Tridas
